@@ -106,7 +106,7 @@ CLAIMS["C13"] = ("symbolic execution (symx) of the typed accessors, tree/chain w
          "PARTIAL by design (fault sequences over whole real documents are whole-program runs): for every reference graph over 3 objects (self-loops, cycles, dangling) and every value kind each accessor terminates "
          "within a look-up bound and raises only the library family; number-tree Kids cycles and object-stream containment cycles terminate; rldecode on ALL byte strings of <= 3 bytes, the predictors on every "
          "geometry incl. 0 and the ASCII/LZW/CCITT filters on corrupt payloads raise only the library family; every single fault (12 kinds at every key, nested entry and array element: 44 sites of an 8-object and 185 sites of a 24-object feature-rich seed document) and every truncation of both documents keeps "
-         "extract_text inside the family, without hang or recursion exhaustion; the same document stored in an object stream + cross-reference stream: every truncation of both payloads and 49 ill-valued /N /First /W /Index /Size /Prev ... entries; every entry of an R2/R3/R4 encryption dictionary; every token of a ToUnicode CMap program; every truncation and single-byte corruption of embedded TrueType / Type 1 font programs; every operand of a content stream that uses every operator kind replaced by a value of another type or removed, every inline-image entry replaced / removed / valueless / doubled. Each counterexample is replayed through extract_text on a generated PDF.",
+         "extract_text inside the family, without hang or recursion exhaustion; the same document stored in an object stream + cross-reference stream: every truncation of both payloads and 49 ill-valued /N /First /W /Index /Size /Prev ... entries; every entry of an R2/R3/R4 encryption dictionary; 25 counts / ranges / sizes / offsets set to numbers far beyond the file (work stays within 5 s and 2 GiB); every token of a ToUnicode CMap program; every truncation and single-byte corruption of embedded TrueType / Type 1 font programs; every operand of a content stream that uses every operator kind replaced by a value of another type or removed, every inline-image entry replaced / removed / valueless / doubled. Each counterexample is replayed through extract_text on a generated PDF.",
          "4.C13")
 CLAIMS["C12"] = ("symbolic execution (symx) of the operations that touch process-wide or cached state (get_encoding, use_cmap, interning, init_resources, get_font, resolve_all/decipher_all, CMapDB caches), plus small end-to-end call histories driven by symbolic choices",
          "PARTIAL by design: arbitrary histories and interleavings of extract_* calls are whole-program runs; the claim is reduced to frame conditions - each operation leaves the shared tables / the document's own "
